@@ -1,4 +1,5 @@
 import GffProofs.Props.C01
+import GffProofs.Props.C01b
 open GffProofs.C01
 #print axioms wfprov_of_wf
 #print axioms orderConsistent_iff
@@ -19,3 +20,14 @@ open GffProofs.C01
 #print axioms printed_identical_of_window
 #print axioms reimport_equivalent
 #print axioms provided_eq_infer
+#print axioms reconstruct_sort_irrelevant
+#print axioms print_sort_irrelevant
+#print axioms valsSorted_of_spec
+#print axioms specValsSorted_of_raw
+#print axioms printed_identical_sorted
+#print axioms raw_sorted_not_enough
+#print axioms createDb_gtf_rows
+#print axioms import_all_once_in_order_gtf
+#print axioms reopen_same_gtf
+#print axioms printed_identical_gtf
+#print axioms printed_identical_gtf_file
